@@ -13,9 +13,27 @@
    and by the correspondence of the extracted writer model with the library.  Proved below: the
    statements do NOT hold for the pinned tree (five witnesses, each a defect with a patch or a
    finding). *)
-From CAres.Wire Require Import Cursor Name Record Parse Escape Write Roundtrip Write_proofs.
+From CAres.Wire Require Import Cursor Name Record Parse Escape Escape_proofs RefDecode Name_ref Write Roundtrip Write_proofs Write_name.
 From CAres.Gen Require Import Consts.
 Local Open Scope Z_scope.
+
+(* NAME ROUND TRIP, uncompressed path (both variants): for every sequence of valid labels (1..63
+   octets each, at most 255 octets on the wire, any octet values) whose canonical text fits the
+   511-character scratch buffer, ares_dns_name_write without a usable compression target emits the
+   wire form, and parsing at the position it was written to - in a buffer with ARBITRARY content
+   before and after - returns the same name and the position right behind it.
+   _partial: the compressed path (a suffix found in the offset list; DESIGN.md A.4 invariant) and
+   hostname validation (owner / question names) are not covered *)
+Theorem C03_name_roundtrip_uncompressed_partial : forall wv base b labels post fuel,
+  Forall label_ok labels -> wire_len labels <= 256 -> slen (escape_name labels) < 512 ->
+  bytes_ok (w_live b) -> bytes_ok post ->
+  exists b', name_write wv base b None false (escape_name labels) = Ok (b', None) /\
+    let bytes := w_live b' ++ post in
+    let c := set_off (cur_of_bytes bytes) (Z.of_nat (length (w_live b))) in
+    Z.of_nat (length bytes) < 2 ^ 64 -> (name_fuel c <= fuel)%nat ->
+    dns_name_parse fuel c true false = Ok (escape_name labels, set_off c (Z.of_nat (length (w_live b')))).
+Proof. exact name_roundtrip_uncompressed. Qed.
+Print Assumptions C03_name_roundtrip_uncompressed_partial.
 
 (* pinned tree: a frame written by ares_dns_write_buf_tcp() into an EMPTY buffer already has its
    compression pointers off by the two octets of the length prefix
